@@ -155,6 +155,7 @@ package sm
 //@   # AVPs are built from is the configured one whenever there is one
 //@   atcall getLocalAddresses: [C11] the_local_endpoint_only_when_nothing_is_configured: len(sm.cfg.HostIPAddresses) == 0
 //@   loop 0
+//@     invariant [C11] one_avp_per_host_address: len(a.AVP) == 3 + rangeindex + 1
 //@     invariant [C11] configured_addresses_are_the_ones_carried: len(sm.cfg.HostIPAddresses) > 0 ==> sameslice(hostAddresses, sm.cfg.HostIPAddresses)
 //@     invariant 0 - 1 <= rangeindex && rangeindex < len(hostAddresses)
 //@     invariant apps_listed: forall i int :: 0 <= i && i < len(sm.supportedApps) ==> sm.supportedApps[i] != nil
@@ -166,6 +167,9 @@ package sm
 //@     invariant ids: mirrors(a, m) && a.Header.CommandFlags == m.Header.CommandFlags &^ 0x80
 //@   end
 //@   loop 1
+//@     # C11 "a success CEA advertises at least the dictionary applications it shares with the peer": every supported
+//@     # application contributes at least one AVP of its own to the answer (none is skipped), after the fixed part
+//@     invariant [C11] every_supported_application_is_advertised: len(a.AVP) >= 5 + len(hostAddresses) + (cer.OriginStateID != nil ? 1 : 0) + rangeindex + 1
 //@     invariant 0 - 1 <= rangeindex && rangeindex < len(sm.supportedApps)
 //@     invariant apps_listed: forall i int :: 0 <= i && i < len(sm.supportedApps) ==> sm.supportedApps[i] != nil
 //@     invariant own1: a != nil && fresh(a) && a.Header != nil && fresh(a.Header)
